@@ -56,6 +56,9 @@ pub fn family() -> Vec<(&'static str, D)> {
         ("wsh-or-older", D::Wsh(T::OrD(Box::new(pk("K1")), Box::new(T::AndV(v(pk("K2")), Box::new(T::Older(5))))))),
         ("wsh-or-after", D::Wsh(T::OrD(Box::new(pk("K1")), Box::new(T::AndV(v(pk("K2")), Box::new(T::After(10))))))),
         ("tr-leaf-older", D::Tr("K1".into(), vec![(0, T::AndV(v(pk("K2")), Box::new(T::Older(5))))])),
+        // a key hash that has to be DISsatisfied when only the other branch signs (the finalizer must know the key)
+        ("tr-leaf-pkh-or", D::Tr("K1".into(), vec![(1, pk("K2")), (1, T::OrD(Box::new(T::Check(Box::new(T::PkH("K3".into())))), Box::new(pk("K4"))))])),
+        ("wsh-pkh-or", D::Wsh(T::OrD(Box::new(T::Check(Box::new(T::PkH("K3".into())))), Box::new(pk("K4"))))),
     ]
 }
 
@@ -241,6 +244,54 @@ fn apply(s: &Setup, p: &Psbt, a: &Act) -> Result<(Psbt, Result<(), String>), Str
     Ok((q, r))
 }
 
+/// What input `i` of the PSBT itself offers to a finalizer: a key counts as available only if its
+/// signature is present for every place the descriptor uses it (under-approximation).
+fn world_of_input(s: &Setup, p: &Psbt, i: usize) -> crate::world::World {
+    let c = &s.cases[i];
+    let inp = &p.inputs[i];
+    let mut sigs = BTreeSet::new();
+    for kl in &c.keys {
+        let k = key(kl);
+        let have = match &c.d {
+            D::Tr(ik, leaves) => {
+                let mut ok = true;
+                let mut used = false;
+                if kl == ik {
+                    used = true;
+                    ok &= inp.tap_key_sig.is_some();
+                }
+                let tl = c.tap_leaves();
+                for (li, (_, t)) in leaves.iter().enumerate() {
+                    if t.keys().contains(kl) {
+                        used = true;
+                        let lh = TapLeafHash::from_byte_array(tapleaf_hash(0xc0, &tl[li].1));
+                        ok &= inp.tap_script_sigs.contains_key(&(k.xonly, lh));
+                    }
+                }
+                used && ok
+            }
+            _ => inp.partial_sigs.contains_key(&bitcoin::PublicKey::new(k.pk)),
+        };
+        if have {
+            sigs.insert(kl.clone());
+        }
+    }
+    let mut pre = BTreeSet::new();
+    for (kind, hl) in &c.hashes {
+        let hb = hash_bytes(*kind, hl);
+        let have = match kind {
+            's' => inp.sha256_preimages.contains_key(&bitcoin::hashes::sha256::Hash::from_slice(&hb).unwrap()),
+            'd' => inp.hash256_preimages.contains_key(&bitcoin::hashes::sha256d::Hash::from_slice(&hb).unwrap()),
+            'r' => inp.ripemd160_preimages.contains_key(&bitcoin::hashes::ripemd160::Hash::from_slice(&hb).unwrap()),
+            _ => inp.hash160_preimages.contains_key(&bitcoin::hashes::hash160::Hash::from_slice(&hb).unwrap()),
+        };
+        if have {
+            pre.insert(hl.clone());
+        }
+    }
+    crate::world::World { sigs, pre, locktime: s.tx.lock_time.to_consensus_u32(), sequence: s.tx.input[i].sequence.0 }
+}
+
 fn is_final(p: &Psbt, i: usize) -> bool { p.inputs[i].final_script_sig.is_some() || p.inputs[i].final_script_witness.is_some() }
 
 fn input_bytes(p: &Psbt, i: usize) -> Vec<u8> {
@@ -418,8 +469,13 @@ pub fn reachable_full_states(pair: &[D; 2]) -> (Vec<Psbt>, Vec<String>) {
     (out, descs)
 }
 
-fn explore_pair(rep: &Report, name: &str, pair: &[D; 2], depth: usize, cfg: TxCfg) -> (Census, u64, u64) {
+fn explore_pair(rep: &Report, name: &str, pair: &[D; 2], depth: usize, cfg: TxCfg) -> (Census, u64, u64) { explore_pair_mode(rep, name, pair, depth, cfg, false) }
+
+/// `completeness_only`: report only "finalize fails although satisfiable" (that is property C02,
+/// decided on the PSBT path; run from the C02 check); otherwise report everything else (C14).
+fn explore_pair_mode(rep: &Report, name: &str, pair: &[D; 2], depth: usize, cfg: TxCfg, completeness_only: bool) -> (Census, u64, u64) {
     let mut cen = Census::new();
+    let prop = if completeness_only { "C02" } else { "C14" };
     let s = match setup(pair, cfg) {
         Some(s) => s,
         None => return (cen, 0, 0),
@@ -432,8 +488,11 @@ fn explore_pair(rep: &Report, name: &str, pair: &[D; 2], depth: usize, cfg: TxCf
     queue.push_back((s.psbt0.clone(), vec![]));
     let mut transitions = 0u64;
     let viol = |class: String, what: String, hist: &[Act], extra: serde_json::Value| {
+        if completeness_only != class.starts_with("finalize-fails-although-satisfiable") {
+            return;
+        }
         rep.violation(Violation {
-            key: format!("C14|{}|{}|{:?}", class, name, hist),
+            key: format!("{}|psbt-{}|{}|{:?}", prop, class, name, hist),
             class,
             what,
             case: json!({"pair": name, "descriptors": [s.cases[0].desc.to_string(), s.cases[1].desc.to_string()], "history": hist.iter().map(|a| format!("{:?}", a)).collect::<Vec<_>>(), "detail": extra}),
@@ -499,6 +558,53 @@ fn explore_pair(rep: &Report, name: &str, pair: &[D; 2], depth: usize, cfg: TxCf
                     }
                 }
                 _ => {}
+            }
+            // completeness: a finalize call that leaves an updated input non-final although the
+            // PSBT's own signatures / preimages admit a witness for this transaction (malleable
+            // variants: always; non-malleable variants: sane descriptor and every preimage present)
+            if a.is_finalize() {
+                let (targets, mall): (Vec<usize>, bool) = match a {
+                    Act::Finalize => (vec![0, 1], false),
+                    Act::FinalizeMall => (vec![0, 1], true),
+                    Act::FinalizeInp(i) => (vec![*i], false),
+                    Act::FinalizeInpMall(i) => (vec![*i], true),
+                    _ => (vec![], false),
+                };
+                for i in targets {
+                    if is_final(&q, i) || !h2.contains(&Act::Update(i)) {
+                        continue;
+                    }
+                    let c = &s.cases[i];
+                    let w = world_of_input(&s, &q, i);
+                    let all_pre = c.hash_labels().iter().all(|h| w.pre.contains(h));
+                    if !(mall || (c.sane && all_pre)) {
+                        continue;
+                    }
+                    bump(&mut cen, "completeness_checks");
+                    let sr = crate::sat::witness_exists(c, &w, &spend_of(&s, i), 200_000);
+                    if sr.capped {
+                        bump(&mut cen, "completeness_search_capped");
+                        continue;
+                    }
+                    if let Some((ti, sol)) = sr.found {
+                        // confirm concretely before accusing
+                        let (ss, wit) = if sr.key_path {
+                            (vec![], vec![crate::sat::key_path_sig(c, &spend_of(&s, i)).unwrap()])
+                        } else {
+                            crate::sat::wrap_solution(c, &c.targets[ti], &sol)
+                        };
+                        if verify_input(&spend_of(&s, i), &ss, &wit, true).is_ok() {
+                            viol(
+                                format!("finalize-fails-although-satisfiable-{}-{}", c.kind(), if mall { "mall" } else { "nonmall" }),
+                                format!("{:?} leaves input {} non-final ({:?}) although the PSBT's own data admit a valid witness", a, i, r),
+                                &h2,
+                                json!({"witness": wit.iter().map(|x| hex(x)).collect::<Vec<_>>(), "script_sig": hex(&ss), "world": w.json()}),
+                            );
+                        }
+                    } else {
+                        bump(&mut cen, "finalize_failed_and_unsatisfiable");
+                    }
+                }
             }
             // idempotence
             if a.is_finalize() {
@@ -572,6 +678,44 @@ fn explore_pair(rep: &Report, name: &str, pair: &[D; 2], depth: usize, cfg: TxCf
     (cen, seen.len() as u64, transitions)
 }
 
+/// C02 on the PSBT path: every finalize variant fails only if no witness exists from the PSBT's
+/// own data. Same histories as C14 (quick pairs + time-locked pairs under every transaction
+/// parameter set), only the completeness invariant is reported.
+pub fn completeness_for_c02(rep: &Report, tier: Tier) -> Census {
+    let fam = family();
+    let idx = |n: &str| fam.iter().position(|(x, _)| *x == n).unwrap();
+    let pairs = [
+        ("wpkh", "sh-multi"),
+        ("wsh-hash-older", "tr-3leaves"),
+        ("wsh-pkh", "pkh"),
+        ("tr-1leaf", "wsh-after"),
+        ("sh-wsh-sortedmulti", "bare-multi"),
+        ("tr-key", "wsh-or-malleable"),
+        ("sh-wpkh", "bare-pk"),
+        ("wsh-or-older", "wsh-or-after"),
+        ("tr-leaf-older", "wsh-or-after"),
+        ("tr-leaf-pkh-or", "wsh-multi"),
+    ];
+    let depth = tier.pick(7, 9);
+    let jobs: Vec<(String, [D; 2])> = pairs.iter().map(|(a, b)| (format!("{}+{}", a, b), [relabel(&fam[idx(a)].1, 0), relabel(&fam[idx(b)].1, 1)])).collect();
+    let results: Vec<(Census, u64, u64)> = jobs.par_iter().map(|(name, pair)| explore_pair_mode(rep, name, pair, depth, CFG_DEFAULT, true)).collect();
+    let mut cen = Census::new();
+    for (c, _, _) in results {
+        for k in ["completeness_checks", "completeness_search_capped", "finalize_failed_and_unsatisfiable", "inputs_finalized"] {
+            if let Some(v) = c.get(k) {
+                *cen.entry(match k {
+                    "completeness_checks" => "psbt_completeness_checks",
+                    "completeness_search_capped" => "psbt_completeness_search_capped",
+                    "finalize_failed_and_unsatisfiable" => "psbt_finalize_failed_and_unsatisfiable",
+                    _ => "psbt_inputs_finalized",
+                })
+                .or_insert(0) += *v;
+            }
+        }
+    }
+    cen
+}
+
 pub fn run(tier: Tier) -> i32 {
     let rep = Report::new("C14", tier);
     if let Err(e) = crate::kat::run_kats() {
@@ -642,7 +786,7 @@ pub fn run(tier: Tier) -> i32 {
         rep.get("finalized_inputs_validated") + rep.get("extracted_inputs_validated") + rep.get("sighash_msgs_confirmed"),
         transitions,
         rep.get("finalized_inputs_validated").min(rep.get("failing_finalize_calls")),
-        "breadth-first search over ALL histories of update / add-signature / add-preimage / finalize / finalize_mall / finalize_inp / finalize_inp_mall (+ extract as observation) up to the depth bound on two-input PSBTs for each descriptor pair; states deduplicated by BIP174 serialisation; invariants: finalized inputs validate on the RSM, final inputs never change, failing finalize leaves the input byte-identical, idempotence, result consistency, order independence of data actions, extract iff all final and validates, update records verifiable scripts / origins / taproot data, sighash_msg equals the independent digest. non-trivial = min(inputs finalized and validated, failing finalize calls)",
+        "breadth-first search over ALL histories of update / add-signature / add-preimage / finalize / finalize_mall / finalize_inp / finalize_inp_mall (+ extract as observation) up to the depth bound on two-input PSBTs for each descriptor pair; states deduplicated by BIP174 serialisation; invariants: finalized inputs validate on the RSM, a finalize call fails only if no witness exists from the PSBT's own data (completeness; witness search on the RSM), final inputs never change, failing finalize leaves the input byte-identical, idempotence, result consistency, order independence of data actions, extract iff all final and validates, update records verifiable scripts / origins / taproot data, sighash_msg equals the independent digest. non-trivial = min(inputs finalized and validated, failing finalize calls)",
         true,
     )
 }
